@@ -517,6 +517,12 @@ class Fn:
             raise Untranslatable('call of %s' % n)
         if isinstance(f, ast.Attribute):
             v = f.value
+            if (isinstance(v, ast.Attribute) and isinstance(v.value, ast.Name) and v.value.id == 'np' and 'np' not in self.env
+                    and v.attr == 'maximum' and f.attr == 'accumulate' and len(e.args) == 1 and not kws):
+                a, ta = self.ex(ind, e.args[0])
+                if ta != 'arr':
+                    raise Untranslatable('np.maximum.accumulate of a %r' % ta)
+                return '(npMaxAccumulate %s)' % a, 'arr'
             if isinstance(v, ast.Name) and v.id == 'np' and 'np' not in self.env:
                 if f.attr == 'array' and len(e.args) == 1 and not kws:
                     a, ta = self.ex(ind, e.args[0])
@@ -959,6 +965,21 @@ class Fn:
         if isinstance(s, ast.Expr) and isinstance(s.value, ast.Call) and isinstance(s.value.func, ast.Attribute):
             c = s.value
             f = c.func
+            if (f.attr == 'accumulate' and isinstance(f.value, ast.Attribute) and f.value.attr == 'maximum'
+                    and isinstance(f.value.value, ast.Name) and f.value.value.id == 'np' and 'np' not in self.env
+                    and len(c.args) == 1 and [k.arg for k in c.keywords] == ['out']
+                    and ast.dump(c.args[0]) == ast.dump(c.keywords[0].value)):
+                # in-place running maximum: np.maximum.accumulate(x, out=x)
+                v, tv = self.ex(ind, c.args[0])
+                if tv != 'arr':
+                    raise Untranslatable('np.maximum.accumulate(.., out=..) of a %r' % tv)
+                store = c.args[0]
+                store = ast.Attribute(value=store.value, attr=store.attr, ctx=ast.Store()) if isinstance(store, ast.Attribute) \
+                    else ast.Name(id=store.id, ctx=ast.Store()) if isinstance(store, ast.Name) else None
+                if store is None:
+                    raise Untranslatable('np.maximum.accumulate(.., out=..) on %s' % ast.unparse(c.args[0]))
+                self.assign_to(ind, store, '(npMaxAccumulate %s)' % v, 'arr')
+                return False
             if isinstance(f.value, ast.Name) and f.value.id in self.env and f.value.id != 'self':
                 x = f.value.id
                 if f.attr == 'append' and len(c.args) == 1 and self.env[x] == 'list':
